@@ -1,1 +1,3 @@
+pub mod asm;
+pub mod c02;
 pub mod c13;
